@@ -176,8 +176,9 @@ def run(ctx):
                    "the selector %s does not give the quarter of (dx, dy) at %s (dx, dy, value; None = not evaluable) — the weights of the arm taken there were checked on another box, or no arm is taken" % (show(st)[:160], bad[:4]), at=b.span)
     missing = [k for k in ["arm(q=%d,%s)" % (q, p) for q in range(4) for p in ("present", "absent")] if k not in seen]
     ctx.report("arms", FN + ":all-8-arms-extracted", not missing, "arms not found: %s" % missing, at=b.span)
-    from rules.c03_vertices import hash_with_dxdy_wrap
+    from rules.c03_vertices import hash_with_dxdy_wrap, decomposition_chain
     hash_with_dxdy_wrap(ctx, crate, clause="input")
+    decomposition_chain(ctx, crate, which=("hash_with_dxdy",), clause="input")
     ctx.not_decided("that hash_with_dxdy returns the right (h, dx, dy) in the first place (C03, float numerics)")
     ctx.assume("dx, dy in [0, 1] (C03's undecided float clause) for the sign claims")
     ctx.extra["exhaustive"] = True
